@@ -38,6 +38,10 @@ pub struct Mix {
     pub job_heartbeat: u32,
     #[serde(default)]
     pub job_clean_tokens: u32,
+    #[serde(default)]
+    pub unauth: u32,
+    #[serde(default)]
+    pub garbage: u32,
 }
 
 #[derive(Clone, Debug, Serialize, Deserialize)]
@@ -165,6 +169,19 @@ impl Gen {
 
     pub fn fresh_name(&mut self, prefix: &str) -> String {
         self.name_counter += 1;
+        if self.cfg.codec_corners && !prefix.starts_with("user") && !prefix.starts_with("tok") {
+            // boundary lengths: 1, 2 and 255 bytes, and multi-byte characters
+            match self.rng.below(10) {
+                0 => return format!("{}", (b'a' + (self.name_counter % 26) as u8) as char),
+                1 => return format!("{}{}", (b'a' + (self.name_counter % 26) as u8) as char, self.name_counter % 10),
+                2 => {
+                    let base = format!("{prefix}{}-", self.name_counter);
+                    return format!("{base}{}", "x".repeat(255 - base.len()));
+                }
+                3 => return format!("{prefix}é{}", self.name_counter),
+                _ => {}
+            }
+        }
         format!("{prefix}{}", self.name_counter)
     }
 
@@ -233,7 +250,7 @@ impl Gen {
         let m = self.cfg.mix.clone();
         let weights = [
             m.send, m.poll, m.flush, m.job_save, m.job_maintain, m.restart_clean, m.restart_flush_kill, m.restart_lose_index, m.purge, m.tick, m.jump, m.back_jump, m.store_offset, m.get_offset,
-            m.delete_offset, m.audit, m.get_topic, m.partitions, m.update_topic, m.catalogue, m.groups, m.users, m.connect, m.job_heartbeat, m.job_clean_tokens,
+            m.delete_offset, m.audit, m.get_topic, m.partitions, m.update_topic, m.catalogue, m.groups, m.users, m.connect, m.job_heartbeat, m.job_clean_tokens, m.unauth, m.garbage,
         ];
         let choice = self.rng.pick_weighted(&weights);
         let c = self.rng.usize_below(self.cfg.clients);
@@ -384,6 +401,8 @@ impl Gen {
             }
             (23, _) => Op::RunJob(Job::VerifyHeartbeats),
             (24, _) => Op::RunJob(Job::CleanTokens),
+            (25, _) => Op::UnauthProbe { which: self.rng.below(30) as u32 },
+            (26, _) => Op::Garbage { seed: self.rng.next_u64() },
             _ => Op::Tick(1 + self.rng.below(100)),
         }
     }
